@@ -232,6 +232,7 @@ type Event struct {
 	G     int // logical goroutine id, -1 = not registered
 	Point string
 	Args  []interface{}
+	T     int64 // ns since NewFree (monotonic clock), taken when the event was appended to the log
 }
 
 // Hold: the Nth arrival (1-based; 0 = every arrival) of any goroutine at Point waits until
@@ -259,11 +260,15 @@ type Free struct {
 	// OnEvent is called under the log mutex, in log order.
 	OnEvent  func(ev Event)
 	HoldsHit int
+	start    time.Time
 }
+
+// Now returns the time since NewFree in ns.
+func (f *Free) Now() int64 { return int64(time.Since(f.start)) }
 
 func NewFree(seed uint64, perturb int, holds []Hold) *Free {
 	return &Free{gids: map[int64]int{}, passed: map[string]int{}, arrivals: map[string]int{}, Holds: holds,
-		Perturb: perturb, rng: map[int]*uint64{}, seed: seed}
+		Perturb: perturb, rng: map[int]*uint64{}, seed: seed, start: time.Now()}
 }
 
 // Register binds the calling goroutine to logical id g.
@@ -306,7 +311,7 @@ func (f *Free) NumEvents() int {
 
 // AppendLocked appends an event from inside OnEvent (the log mutex is held by the caller).
 func (f *Free) AppendLocked(g int, point string, args ...interface{}) {
-	f.Events = append(f.Events, Event{Seq: len(f.Events), G: g, Point: point, Args: args})
+	f.Events = append(f.Events, Event{Seq: len(f.Events), G: g, Point: point, Args: args, T: f.Now()})
 	f.passed[point]++
 	f.arrivals[point]++
 }
@@ -349,7 +354,7 @@ func (f *Free) Handler(point string, args ...interface{}) {
 			f.mu.Lock()
 		}
 	}
-	ev := Event{Seq: len(f.Events), G: g, Point: point, Args: args}
+	ev := Event{Seq: len(f.Events), G: g, Point: point, Args: args, T: f.Now()}
 	f.Events = append(f.Events, ev)
 	f.passed[point]++
 	if f.OnEvent != nil {
